@@ -11,14 +11,37 @@ from vt.refs import warcread, rfc7230
 from vt.explore import h64
 
 
-def run_case(case):
+def run_case(case, fault=None, oplog=None):
+    """fault = (op index, mode): inject one I/O error at that raw file operation of the run
+    (vt/faultfs.py); oplog (a list) receives the operation log."""
+    if fault is None and oplog is None:
+        return _run_case(case)
+    from vt import faultfs
+    holder = {}
+
+    def with_fs(wd):
+        fs = faultfs.FaultFS(wd, fault[0] if fault else None, fault[1] if fault else 'error')
+        holder['fs'] = fs
+        return fs
+    try:
+        return _run_case(case, with_fs)
+    finally:
+        if oplog is not None and 'fs' in holder:
+            oplog.extend(holder['fs'].ops)
+
+
+def _run_case(case, with_fs=None):
     """case = {'phases': [{'rec': {...}, 'items': [[style, framing, body], ...],
                             'cuts': [...], 'paths': [...] (optional)}]}
     Phases share one working directory (=> appending to pre-existing files)."""
     wd = warcharn.new_workdir()
     warcharn.reset_ids()
     exlog = []       # per exchange: dict(url, sent, received, completed, phase)
+    import contextlib
+    stack = contextlib.ExitStack()
     try:
+        if with_fs:
+            stack.enter_context(with_fs(wd))
         pobs = []
         for pi, ph in enumerate(case['phases']):
             exs = []
@@ -47,9 +70,11 @@ def run_case(case):
                     completed=bool(o and o['phase'] == 'done' and not o['error']),
                     well_formed=(ref['error'] is None and ex['method'] == 'GET'),
                     phase=pi, obs=o))
+        stack.close()
         files = warcharn.collect(wd)
         return dict(files=files, exlog=exlog, pobs=pobs)
     finally:
+        stack.close()
         warcharn.cleanup(wd)
 
 
